@@ -824,6 +824,7 @@ func (r *Reader) FetchMessage(ctx context.Context) (Message, error) {
 
 		version := r.version
 		r.mutex.Unlock()
+		verifPoint("reader.FetchMessage.beforeSelect")
 
 		select {
 		case <-ctx.Done():
